@@ -153,6 +153,11 @@ pub fn run_real(c: &EmitCase) -> Result<Emitted, String> {
                 if let Ok(old) = std::fs::read_to_string(&idx) { let _ = std::fs::write(&idx, format!("pub mod {m}_by_hand;\n// libninja: after\n{old}")); }
                 let _ = std::fs::write(d.join(format!("src/request/{m}_by_hand.rs")), "// libninja: static\npub fn helper() {}\n");
             }
+            // ... and the request module of the last operation kept by hand (static directive above its generated text)
+            if let Some(op) = h.operations.last() {
+                let f = d.join("src/request").join(format!("{}.rs", mir_rust::sanitize_filename(&op.file_name())));
+                if let Ok(old) = std::fs::read_to_string(&f) { if !old.contains("libninja: after") { let _ = std::fs::write(&f, format!("// libninja: static\n{old}")); } }
+            }
             // ... and the example of the first operation kept by hand (the static directive above its generated text)
             if let Some(op) = h.operations.first() {
                 let f = d.join("examples").join(format!("{}.rs", mir_rust::sanitize_filename(&op.file_name())));
